@@ -141,6 +141,16 @@ pub fn run(tier: Tier) -> i32 {
         check_case(&ctx, &cfg, &ops_of(p, &d));
     });
     ctx.count("names_default_vector", all.len() as u64);
+    // part 1b: the same with the ring backend preferred on both endpoints (ring serves SHA-2, ChaChaPoly and
+    // AESGCM; everything else falls back to the default backend) - the bytes must be the specification's
+    // whichever backend computes them
+    let mut dr = default_var();
+    dr.mode = Mode::ST;
+    all.par_iter().for_each(|p| {
+        let cfg = cfg_of(p, &dr, Backend::Ring);
+        check_case(&ctx, &cfg, &ops_of(p, &dr));
+    });
+    ctx.count("names_default_vector_ring_backend", all.len() as u64);
     // part 2: bound-1 input variations
     let suites: Vec<Proto> = if ctx.quick() {
         // NAMES/suite on 25519/ChaChaPoly/SHA256 + NAMES/hs38 on every suite
